@@ -36,3 +36,148 @@ Proof. exact roots_complete_set. Qed.
 Theorem roots_of_constant : forall md c p r,
   p <> 0 -> p <> 2 -> c mod p <> 0 -> find_linear_factors md [c] p r = Done ([], r).
 Proof. exact roots_of_constant. Qed.
+
+(** ** Multiplicities (second wave)
+
+    Vocabulary (coq/Refine/RootsMultTop.v, C08Lists.v, HenselProofs.v, PolyZmod.v):
+    [peqmod p a b] = "poly_mod (a - b) p is the zero polynomial"; [lprod] = product of a list of
+    coefficient lists; [lpow a k] = a^k; [xsub x] = [-x; 1] = X - x; [linprod rs] = product of
+    the X - r, r in rs; [root_mult p f x k] = "f = (X - x)^k g modulo p for some g with
+    g(x) <> 0 modulo p", i.e. x is a root of f modulo p of multiplicity exactly k (k = 0: not a
+    root). *)
+From Coq Require Import Permutation.
+From RNT.Refine Require Import PolyZmod HenselProofs C08Lists RootsMultTop.
+
+(** The definition, unfolded (so that the statements below can be read without the Refine files). *)
+Example root_mult_unfold : forall p f x k,
+  root_mult p f x k <->
+  exists g, peqmod p f (pmul opsZ (lpow [- x; 1] k) g) /\ (pof opsZ g x) mod p <> 0.
+Proof. intros. reflexivity. Qed.
+
+(** [P] [root_mult_unique], [root_mult_exists], [root_mult_0_iff], [root_mult_pos_root]: for a
+    prime p the multiplicity is unique, exists whenever f is not 0 modulo p, is 0 exactly when x
+    is not a root, and a positive multiplicity means x is a root. *)
+Theorem root_mult_unique : forall p f x k k',
+  prime p -> root_mult p f x k -> root_mult p f x k' -> k = k'.
+Proof. exact root_mult_unique. Qed.
+
+Theorem root_mult_exists : forall p f x,
+  prime p -> ~ peqmod p f [] -> exists k, root_mult p f x k.
+Proof. exact root_mult_exists. Qed.
+
+Theorem root_mult_0_iff : forall p f x,
+  prime p -> (root_mult p f x 0 <-> (pof opsZ f x) mod p <> 0).
+Proof. exact root_mult_0_iff. Qed.
+
+Theorem root_mult_pos_root : forall p f x k,
+  prime p -> root_mult p f x (S k) -> (pof opsZ f x) mod p = 0.
+Proof. exact root_mult_pos_root. Qed.
+
+(** [P] [roots_complete_multiset]: for every prime p (2 included), every build profile, every f and
+    every stream of random bytes: if [find_linear_factors] returns, then every x of [0, p) occurs in
+    the returned list exactly as often as its multiplicity as a root of f modulo p. (Values
+    outside [0, p) never occur, by [roots_sound]; f = 0 modulo p never returns and has no
+    multiplicity.) Invariant of the recursion: the values appended by a call on a polynomial g
+    are the root multiset of g; every step writes g = h * g' modulo p with h = X - a, h = a gcd
+    handed to a recursive call, or h = 1, and multiplicities add over products; the "no
+    progress" exit only fires on a polynomial without roots (Euler's criterion). *)
+Theorem roots_complete_multiset : forall md f p r roots r',
+  prime p -> find_linear_factors md f p r = Done (roots, r') ->
+  forall x k, 0 <= x < p -> root_mult p f x k -> count_occ Z.eq_dec roots x = k.
+Proof. exact roots_complete_multiset. Qed.
+
+(** Non-vacuity: f = (x - 1)^2 (x - 3) = x^3 - 5x^2 + 7x - 3 modulo 7, one scripted draw (4 bytes,
+    the shift is itself a root); the run returns 3, 1, 1; the multiplicities of 1, 3, 0 in f are
+    2, 1, 0 (cofactors x - 3, (x - 1)^2, f). *)
+Example roots_complete_multiset_nonvacuous :
+  prime 7 /\
+  (exists r', find_linear_factors Checked [-3; 7; -5; 1] 7 (rng_of [1; 0; 0; 0]) = Done ([3; 1; 1], r')) /\
+  root_mult 7 [-3; 7; -5; 1] 1 2 /\ root_mult 7 [-3; 7; -5; 1] 3 1 /\ root_mult 7 [-3; 7; -5; 1] 0 0.
+Proof.
+  split; [exact c12_prime_7|]. split; [eexists; vm_compute; reflexivity|].
+  split; [exists [-3; 1]; split; [vm_compute; reflexivity|vm_compute; discriminate]|].
+  split; [exists [1; -2; 1]; split; [vm_compute; reflexivity|vm_compute; discriminate]|].
+  exists [-3; 7; -5; 1]; split; [vm_compute; reflexivity|vm_compute; discriminate].
+Qed.
+
+(** The same modulo 2 (no draws): x^2 (x + 1) has the roots 0, 0, 1. *)
+Example roots_complete_multiset_mod2 :
+  find_linear_factors Checked [0; 0; 1; 1] 2 (rng_of []) = Done ([0; 0; 1], rng_of []) /\
+  root_mult 2 [0; 0; 1; 1] 0 2 /\ root_mult 2 [0; 0; 1; 1] 1 1.
+Proof.
+  split; [vm_compute; reflexivity|].
+  split; [exists [1; 1]; split; [vm_compute; reflexivity|vm_compute; discriminate]|].
+  exists [0; 0; 1]; split; [vm_compute; reflexivity|vm_compute; discriminate].
+Qed.
+
+(** [P] [roots_planted]: if f = (X - r1) ... (X - rn) g modulo p where g has no root modulo p, the
+    returned list is a permutation of [r1 mod p; ...; rn mod p] (every f that is not 0 modulo p
+    has such a decomposition). *)
+Theorem roots_planted : forall md f p r roots r' rs g,
+  prime p -> peqmod p f (pmul opsZ (linprod rs) g) ->
+  (forall x, 0 <= x < p -> (pof opsZ g x) mod p <> 0) ->
+  find_linear_factors md f p r = Done (roots, r') ->
+  Permutation roots (map (fun r => r mod p) rs).
+Proof. exact roots_planted. Qed.
+
+(** Non-vacuity: 3 (x - 1) (x - 8) (x - 3) (x^2 + 1) modulo 7 (8 = 1 modulo 7; x^2 + 1 has no root
+    modulo 7), three scripted draws (12 bytes). *)
+Example roots_planted_nonvacuous :
+  prime 7 /\
+  peqmod 7 [-72; 105; -108; 108; -36; 3] (pmul opsZ (linprod [1; 8; 3]) [3; 0; 3]) /\
+  forallb (fun x => negb ((pof opsZ [3; 0; 3] x) mod 7 =? 0)) [0; 1; 2; 3; 4; 5; 6] = true /\
+  (exists r', find_linear_factors Checked [-72; 105; -108; 108; -36; 3] 7
+                (rng_of [5; 0; 0; 0; 2; 0; 0; 0; 6; 0; 0; 0]) = Done ([3; 1; 1], r')) /\
+  Permutation [3; 1; 1] (map (fun r => r mod 7) [1; 8; 3]).
+Proof.
+  split; [exact c12_prime_7|].
+  split; [vm_compute; reflexivity|]. split; [vm_compute; reflexivity|].
+  split; [eexists; vm_compute; reflexivity|].
+  exact (Permutation_app_comm [3] [1; 1]).
+Qed.
+
+(** [P] [roots_split_length]: if f = c (X - r1) ... (X - rn) modulo p with c <> 0 modulo p (f splits
+    into linear factors), exactly n = deg (f mod p) values are returned. *)
+Theorem roots_split_length : forall md f p r roots r' rs c,
+  prime p -> peqmod p f (pmul opsZ (linprod rs) [c]) -> c mod p <> 0 ->
+  find_linear_factors md f p r = Done (roots, r') -> length roots = length rs.
+Proof. exact roots_split_length. Qed.
+
+(** [P] [roots_nil_iff]: the returned list is empty exactly when f has no root in [0, p). *)
+Theorem roots_nil_iff : forall md f p r roots r',
+  prime p -> find_linear_factors md f p r = Done (roots, r') ->
+  (roots = [] <-> forall x, 0 <= x < p -> (pof opsZ f x) mod p <> 0).
+Proof. exact roots_nil_iff. Qed.
+
+(** Non-vacuity: x^2 + 1 has no root modulo 7; the run (one draw) returns the empty list. *)
+Example roots_nil_nonvacuous :
+  exists r', find_linear_factors Checked [1; 0; 1] 7 (rng_of [5; 0; 0; 0]) = Done ([], r').
+Proof. eexists. vm_compute. reflexivity. Qed.
+
+(** ** Number of returned values against the degree *)
+From RNT.Refine Require Import RootsMultDeg.
+
+(** [P] [roots_length_le_deg]: at most deg (f mod p) values are returned ([pdeg] of the reduced
+    polynomial [poly_mod f p]; the returned values r1..rn satisfy f = (X - r1)...(X - rn) g mod p). *)
+Theorem roots_length_le_deg : forall md f p r roots r' f1,
+  prime p -> find_linear_factors md f p r = Done (roots, r') ->
+  poly_mod f p = Done f1 -> Z.of_nat (length roots) <= pdeg f1.
+Proof. exact roots_length_le_deg. Qed.
+
+(** [P] [roots_split_deg]: if f splits into linear factors modulo p (f = c (X - r1) ... (X - rn) with
+    c <> 0 modulo p), the number of returned values equals deg (f mod p). *)
+Theorem roots_split_deg : forall md f p r roots r' rs c f1,
+  prime p -> peqmod p f (pmul opsZ (linprod rs) [c]) -> c mod p <> 0 ->
+  find_linear_factors md f p r = Done (roots, r') ->
+  poly_mod f p = Done f1 -> Z.of_nat (length roots) = pdeg f1.
+Proof. exact roots_split_deg. Qed.
+
+(** Non-vacuity: 3 (x - 1) (x - 8) (x - 3) modulo 7 (degree 3), one scripted draw; three values. *)
+Example roots_split_nonvacuous :
+  peqmod 7 [-72; 105; -36; 3] (pmul opsZ (linprod [1; 8; 3]) [3]) /\ 3 mod 7 <> 0 /\
+  (exists r', find_linear_factors Checked [-72; 105; -36; 3] 7 (rng_of [4; 0; 0; 0]) = Done ([3; 1; 1], r')) /\
+  poly_mod [-72; 105; -36; 3] 7 = Done [5; 0; 6; 3] /\ pdeg [5; 0; 6; 3] = 3.
+Proof.
+  split; [vm_compute; reflexivity|]. split; [vm_compute; discriminate|].
+  split; [eexists; vm_compute; reflexivity|]. split; vm_compute; reflexivity.
+Qed.
